@@ -34,8 +34,6 @@ def isNumeric (c : Char) : Bool := isAsciiDigit c
 def isAlphanumeric (c : Char) : Bool := isAlphabetic c || isNumeric c
 /-- Rust `char::is_control` -/
 def isControl (c : Char) : Bool := c.toNat < 0x20 || (0x7F ≤ c.toNat && c.toNat ≤ 0x9F)
-/-- strings.rs `selector_plain_part` character class -/
-def isPlainChar (c : Char) : Bool := isAlphanumeric c || c = '-' || c = '_'
 def isSpace (c : Char) : Bool := c = ' ' || c = '\t' || c = '\n' || c = '\r' || c.toNat = 0x0C
 
 def hexVal? (c : Char) : Option Nat :=
@@ -70,32 +68,41 @@ def escapedChar : List Char → PR Char
       | none => some (c, rest)
   | _ => none
 
-/-- Deviation flags of the selector lexer; `lexSpec` = all off. -/
+/-- Deviation flags of the selector lexer; `lexSpec` = all off = `lexAsis`, the code today
+(both deviations were repaired in /repo: bcc4ec1, 60db3d6); `lexOld` = the code before. -/
 structure LexQuirks where
-  /-- strings.rs `normalized_(first_)escaped_char`: every escaped character ≥ U+00A1 is written
-  raw, also symbols (©, ×, ˛ …) that `selector_plain_part` does not accept — the printed name
-  then does not parse again.  Spec: such a character keeps a hex escape. -/
+  /-- (before bcc4ec1) strings.rs `selector_plain_part` accepted only `is_alphanumeric`
+  characters, `-` and `_`, while `normalized_(first_)escaped_char` write every escaped character
+  ≥ U+00A1 raw: a symbol (©, ×, ˛ …) was printed raw and the printed name did not parse again.
+  Now every non-ASCII character is an identifier character. -/
   symbolEscapeRaw : Bool := false
+  /-- (before 60db3d6) strings.rs `css_string_dq/sq`: `is_not(quote)` swallowed backslashes, so
+  the body was the verbatim text up to the next quote and `\"` ended the string. -/
+  quotedVerbatim : Bool := false
   deriving Repr, DecidableEq
 
 def lexSpec : LexQuirks := {}
-def lexAsis : LexQuirks := { symbolEscapeRaw := true }
+/-- the code as it is today -/
+def lexAsis : LexQuirks := {}
+/-- the code before bcc4ec1 / 60db3d6 -/
+def lexOld : LexQuirks := { symbolEscapeRaw := true, quotedVerbatim := true }
 
-/-- is a character ≥ U+00A1 written raw by the escape normaliser? -/
-def highRaw (q : LexQuirks) (c : Char) : Bool :=
-  c.toNat ≥ 0xA1 && (q.symbolEscapeRaw || isAlphanumeric c)
+/-- strings.rs `selector_plain_part` character class -/
+def isPlainChar (q : LexQuirks) (c : Char) : Bool :=
+  isAlphanumeric c || c = '-' || c = '_' || (!q.symbolEscapeRaw && c.toNat ≥ 0x80)
+
+/-- a character ≥ U+00A1 is written raw by the escape normalisers (all versions of the code) -/
+def highRaw (_q : LexQuirks) (c : Char) : Bool := c.toNat ≥ 0xA1
 
 /-- strings.rs `normalized_first_escaped_char` -/
 def normFirst (q : LexQuirks) (c : Char) : List Char :=
   if isAlphabetic c || highRaw q c then [c]
-  else if c.toNat ≥ 0xA1 then '\\' :: hexLower c.toNat ++ [' ']
   else if !isControl c && !isNumeric c && c != '\n' && c != '\t' then ['\\', c]
   else '\\' :: hexLower c.toNat ++ [' ']
 
 /-- strings.rs `normalized_escaped_char` -/
 def normRest (q : LexQuirks) (c : Char) : List Char :=
   if isAlphanumeric c || c = '-' || highRaw q c then [c]
-  else if c.toNat ≥ 0xA1 then '\\' :: hexLower c.toNat ++ [' ']
   else if !isControl c && c != '\n' && c != '\t' then ['\\', c]
   else '\\' :: hexLower c.toNat ++ [' ']
 
@@ -104,7 +111,7 @@ def normRest (q : LexQuirks) (c : Char) : List Char :=
 def nameTail (q : LexQuirks) (hash : Bool) : Nat → List Char → List Char → List Char × List Char
   | 0, acc, rest => (acc, rest)
   | fuel + 1, acc, c :: rest =>
-    if isPlainChar c then nameTail q hash fuel (acc ++ [c]) rest
+    if isPlainChar q c then nameTail q hash fuel (acc ++ [c]) rest
     else if c = '\\' then
       match escapedChar (c :: rest) with
       | some (ch, r) => nameTail q hash fuel (acc ++ normRest q ch) r
@@ -117,7 +124,7 @@ def nameTail (q : LexQuirks) (hash : Bool) : Nat → List Char → List Char →
 def cssName (q : LexQuirks) (hash : Bool) : List Char → PR (List Char)
   | [] => none
   | c :: rest =>
-    if isPlainChar c then some (nameTail q hash (rest.length + 1) [c] rest)
+    if isPlainChar q c then some (nameTail q hash (rest.length + 1) [c] rest)
     else if c = '\\' then
       match escapedChar (c :: rest) with
       | some (ch, r) => some (nameTail q hash (r.length + 1) (normFirst q ch) r)
@@ -136,22 +143,57 @@ def normQ (c : Char) : List Char :=
   else if c = '-' || c = '\\' || c = ' ' then ['\\', c]
   else [c]
 
-/-- strings.rs `css_string_dq` / `css_string_sq` body after the opening quote.  The first
-alternative of the `many0(alt((is_not(q), "\\q", escape)))` loop, `is_not(q)`, takes every
-character up to the next quote — backslashes included — so the other two alternatives are
-never reached with anything but the closing quote ahead: the body is the text up to the first
-quote character, verbatim. -/
-def quotedBody (q : Char) : Nat → List Char → List Char → PR (List Char)
+/-- (before 60db3d6) the body is the text up to the first quote character, verbatim -/
+def quotedVerbatimBody (q : Char) : Nat → List Char → List Char → PR (List Char)
   | 0, _, _ => none
   | _ + 1, _, [] => none
   | fuel + 1, acc, c :: rest =>
-    if c = q then some (acc, rest) else quotedBody q fuel (acc ++ [c]) rest
+    if c = q then some (acc, rest) else quotedVerbatimBody q fuel (acc ++ [c]) rest
+
+/-- strings.rs `css_string_dq/sq`, the `many0(alt((is_not(q \\), "\\q", escape)))` loop: the parts
+in order (`run` = the plain run being collected) -/
+def quotedParts (q : Char) : Nat → List Char → List (List Char) → List Char → PR (List (List Char))
+  | 0, _, _, _ => none
+  | _ + 1, _, _, [] => none
+  | fuel + 1, run, parts, c :: rest =>
+    let flush := if run.isEmpty then parts else parts ++ [run]
+    if c = q then some (flush, rest)
+    else if c = '\\' then
+      match rest with
+      | c2 :: rest2 =>
+        if c2 = q then quotedParts q fuel [] (flush ++ [[q]]) rest2
+        else match escapedChar (c :: rest) with
+          | some (ch, r) => quotedParts q fuel [] (flush ++ [normQ ch]) r
+          | none => none
+      | [] => none
+    else quotedParts q fuel (run ++ [c]) parts rest
+
+def isHexDigitC (c : Char) : Bool := (hexVal? c).isSome
+
+/-- strings.rs `cleanup_escape_ws`: the space that ends a hex escape is dropped unless a hex
+digit, tab or space follows -/
+def cleanupEscapeWs : List (List Char) → List (List Char)
+  | [] => []
+  | p :: rest =>
+    let needs : Bool := match rest.head? with
+      | some nxt => (match nxt.head? with
+        | some c => isHexDigitC c || c = '\t' || c = ' '
+        | none => false)
+      | none => false
+    (if p.length > 2 && p.head? = some '\\' && p.getLast? = some ' ' && !needs then p.dropLast else p)
+      :: cleanupEscapeWs rest
+
+def quotedBody (lq : LexQuirks) (q : Char) (rest : List Char) : PR (List Char) :=
+  if lq.quotedVerbatim then quotedVerbatimBody q (rest.length + 1) [] rest
+  else match quotedParts q (rest.length + 1) [] [] rest with
+    | some (parts, r) => some ((cleanupEscapeWs parts).flatten, r)
+    | none => none
 
 /-- strings.rs `css_string_any`: value text and quote kind -/
 def cssStringAny (q : LexQuirks) : List Char → PR (List Char × Quote)
-  | '"' :: rest => match quotedBody '"' (rest.length + 1) [] rest with
+  | '"' :: rest => match quotedBody q '"' rest with
     | some (v, r) => some ((v, .dbl), r) | none => none
-  | '\'' :: rest => match quotedBody '\'' (rest.length + 1) [] rest with
+  | '\'' :: rest => match quotedBody q '\'' rest with
     | some (v, r) => some ((v, .sgl), r) | none => none
   | l => match cssName q true l with
     | some (v, r) => some ((v, .none), r) | none => none
